@@ -1402,11 +1402,20 @@ done:
   return rv;
 }
 
-static void ares_detach_query(ares_query_t *query)
+void ares_detach_query(ares_query_t *query)
 {
-  /* Remove the query from all the lists in which it is linked */
+  /* Remove the query from all the lists in which it is linked.  This may be
+   * called more than once for the same query (before its callback and again
+   * when it is freed), so every step must be idempotent. */
   ares_query_remove_from_conn(query);
-  ares_htable_szvp_remove(query->channel->queries_by_qid, query->qid);
+
+  /* Only drop the id mapping while it is still ours: once detached, a request
+   * started from the completion callback may have been given the same id. */
+  if (ares_htable_szvp_get_direct(query->channel->queries_by_qid, query->qid) ==
+      query) {
+    ares_htable_szvp_remove(query->channel->queries_by_qid, query->qid);
+  }
+
   ares_llist_node_destroy(query->node_all_queries);
   query->node_all_queries = NULL;
 }
@@ -1422,6 +1431,11 @@ static void end_query(ares_channel_t *channel, ares_server_t *server,
   }
 
   ares_metrics_record(query, server, status, dnsrec);
+
+  /* Unlink the query from every index before the callback runs.  The callback
+   * may call ares_cancel() or start new requests; neither may be able to find
+   * (and complete or requeue) this query a second time. */
+  ares_detach_query(query);
 
   /* Invoke the callback. */
   query->callback(query->arg, status, query->timeouts, dnsrec);
